@@ -365,6 +365,9 @@ class Node(ModelElement):
 
         node_id = self.topo.graph_model.find_ns_by_name(parent_node_id=self.node_id,
                                                         nsname=name)
+        # disconnect the service's ports (and their sub-interfaces) from the services they are connected to
+        self.topo._disconnect_from_services(NetworkService(name=name, node_id=node_id,
+                                                           topo=self.topo).interface_list)
         self.topo.graph_model.remove_ns_with_cps_and_links(node_id=node_id)
 
     def remove_storage(self, name: str) -> None:
